@@ -7,6 +7,8 @@ import (
 	"encoding/json"
 	"fmt"
 	"hash/fnv"
+	"os"
+	"runtime"
 	"sort"
 	"strings"
 	"time"
@@ -173,6 +175,23 @@ func FormatSchedule(res *mcrt.Result) string {
 }
 
 // Explore runs the DFS.
+// heapLimitMiB: the heap one exploring process may use (VERIF_MAX_HEAP_MB, default 2560).
+func heapLimitMiB() uint64 {
+	if v := os.Getenv("VERIF_MAX_HEAP_MB"); v != "" {
+		var n uint64
+		if _, err := fmt.Sscanf(v, "%d", &n); err == nil && n > 0 {
+			return n
+		}
+	}
+	return 2560
+}
+
+func heapOver() bool {
+	var ms runtime.MemStats
+	runtime.ReadMemStats(&ms)
+	return ms.HeapAlloc > heapLimitMiB()<<20
+}
+
 func Explore(sc *Scenario, opt Options) *Stats {
 	st := &Stats{Scenario: sc.Name, Bound: opt.Bound, Outcomes: map[string]int64{}, FoundBySig: map[string]int64{}, Exhaustive: true}
 	t0 := time.Now()
@@ -206,6 +225,13 @@ func Explore(sc *Scenario, opt Options) *Stats {
 		if !opt.Deadline.IsZero() && st.Execs%64 == 0 && time.Now().After(opt.Deadline) {
 			st.Exhaustive = false
 			st.CapHit = "deadline"
+			break
+		}
+		if st.Execs%8192 == 8191 && heapOver() {
+			// the state cache and the DFS stack of this process have outgrown their share of the machine (16 worker
+			// processes share its memory; without swap an exhausted machine stalls instead of failing cleanly)
+			st.Exhaustive = false
+			st.CapHit = fmt.Sprintf("heap_limit=%dMiB", heapLimitMiB())
 			break
 		}
 		it := stack[len(stack)-1]
